@@ -33,6 +33,8 @@ def run(ctx, col, tier):
     _normaxis.run(ctx, col, ('swcgeom.analysis.volume', 'swcgeom.utils.volumetric_object', 'swcgeom.utils.solid_geometry', 'swcgeom.analysis.features', 'swcgeom.analysis.lmeasure', 'swcgeom.analysis.sholl', 'swcgeom.core.tree', 'swcgeom.core.path', 'swcgeom.core.branch', 'swcgeom.transforms.branch', 'swcgeom.transforms.branch_tree'))
     from ..rules import smalllints as _small
     _small.run_atol(ctx, col, ('swcgeom.utils.solid_geometry', 'swcgeom.utils.volumetric_object', 'swcgeom.analysis.volume'))
+    from ..rules import smalllints2 as _s2v
+    _s2v.run_allpairs(ctx, col, ('swcgeom.analysis.volume', 'swcgeom.utils.volumetric_object'))
     _small.run_falsy(ctx, col, ('swcgeom.utils.solid_geometry', 'swcgeom.utils.volumetric_object', 'swcgeom.analysis.volume'))
     col.rule("R-GATE", "accuracy gating as a finite table: for every level 1..9 and every child "
              "count 0..3 the guards are folded and the multiset of signed terms added to the "
